@@ -351,6 +351,9 @@ def gen_options(tier):
     for name in ORDER_FUNCS:
         for o in BAD_ORDERS:
             yield {"kind": "badorder", "name": name, "order": o}
+            # the option is validated whatever the angles are: all zero (the null rotation), integer zeros, one zero
+            for ang in ([0.0, 0.0, 0.0], [0, 0, 0], [0.0, 0.2, 0.0]):
+                yield {"kind": "badorder", "name": name, "order": o, "ang": ang}
         for o in GOOD_ORDERS:
             yield {"kind": "goodorder", "name": name, "order": o}
     for name in UNIT_FUNCS:
@@ -358,6 +361,8 @@ def gen_options(tier):
             continue                       # returned angles: the statement rejects unknown units for INPUT angles
         for u in BAD_UNITS:
             yield {"kind": "badunit", "name": name, "unit": u}
+            for ang in ([0.0, 0.0, 0.0], [0, 0, 0], [0.0, 0.2, 0.0]):
+                yield {"kind": "badunit", "name": name, "unit": u, "ang": ang}
 
 
 def s_packed():
@@ -433,7 +438,7 @@ def _args(sp, case):
 def check_case(case):
     if case.get("kind") in ("hist", "aug", "variant", "own"):
         return probes.run(case, PROPERTY_ID)
-    return {"form": _form, "dtype": _dtype, "callform": _callform, "thetalen": _thetalen, "wronglen": _wronglen, "unit": _unit, "scalartype": _scalartype, "badorder": _badorder, "goodorder": _goodorder, "badunit": _badunit,
+    return {"form": _form, "dtype": _dtype, "callform": _callform, "thetalen": _thetalen, "wronglen": _wronglen, "unit": _unit, "scalartype": _scalartype, "badorder": _badorder, "goodorder": _goodorder, "badunit": _badunit, "printunit": _printunit,
             "packed": _packed}[case["kind"]](case)
 
 
@@ -720,10 +725,10 @@ def _callform(case):
     return c.out
 
 
-def _order_call(name, order):
+def _order_call(name, order, ang=(0.1, 0.2, 0.3)):
     b = L.base
     R = refs.rotz(0.3) @ refs.roty(-0.4) @ refs.rotx(0.5)
-    ang = [0.1, 0.2, 0.3]
+    ang = list(ang)
     return {"rpy2r": lambda: b.rpy2r(ang, order=order), "rpy2tr": lambda: b.rpy2tr(ang, order=order), "tr2rpy": lambda: b.tr2rpy(R, order=order),
             "SO3.RPY": lambda: L.SO3.RPY(ang, order=order), "SE3.RPY": lambda: L.SE3.RPY(ang, order=order), "UQ.RPY": lambda: L.UnitQuaternion.RPY(ang, order=order),
             "SO3.rpy": lambda: L.SO3(R).rpy(order=order), "UQ.rpy": lambda: L.UnitQuaternion(R).rpy(order=order)}[name]()
@@ -731,7 +736,7 @@ def _order_call(name, order):
 
 def _badorder(case):
     c = Checker("badorder", name=case["name"], order=repr(case["order"]))
-    c.must_raise(case["name"] + "/unknown_order", _order_call, case["name"], case["order"])
+    c.must_raise(case["name"] + "/unknown_order", _order_call, case["name"], case["order"], case.get("ang", (0.1, 0.2, 0.3)))
     return c.out
 
 
@@ -747,9 +752,63 @@ def _goodorder(case):
     return c.out
 
 
+PRINT_ORIENTS = ["rpy/zyx", "rpy/xyz", "rpy/yxz", "eul", "angvec"]
+
+
+def gen_printunit(tier):
+    for route in ("trprint", "trprint/R", "SE3.printline", "SO3.printline", "trprint2", "SE2.printline"):
+        for orient in (PRINT_ORIENTS if "2" not in route else ["-"]):
+            for degsym in (True, False):
+                for a in ([0.3, 0.4, 0.5], [-1.2, 0.7, 2.9]):
+                    yield {"kind": "printunit", "route": route, "orient": orient, "degsym": degsym, "a": a}
+
+
+def _printunit(case):
+    """angles returned as TEXT by the one-line printers: the numbers printed with unit='deg' are those printed with unit='rad'
+    times 180/pi, whatever the orientation format and whether or not the degree sign is asked for"""
+    import re
+    b = L.base
+    route, orient, degsym, a = case["route"], case["orient"], case["degsym"], case["a"]
+    c = Checker("printunit", route=route, orient=orient, degsym=degsym)
+    R = refs.polish(refs.rotz(a[2]) @ refs.roty(a[1] / 2.1) @ refs.rotx(a[0]))
+    T = refs.rt(R, [1.0, 2.0, 3.0])
+    T2 = refs.rt(refs.rot2(a[0]), [1.0, 2.0])
+    fmt = "{:.12g}"
+
+    def call(unit):
+        u = fresh_str(unit)
+        if route == "trprint":
+            return b.trprint(T.copy(), orient=orient, unit=u, degsym=degsym, file=None, fmt=fmt)
+        if route == "trprint/R":
+            return b.trprint(R.copy(), orient=orient, unit=u, degsym=degsym, file=None, fmt=fmt)
+        if route == "SE3.printline":
+            return L.SE3(T.copy()).printline(orient=orient, unit=u, degsym=degsym, file=None, fmt=fmt)
+        if route == "SO3.printline":
+            return L.SO3(R.copy()).printline(orient=orient, unit=u, degsym=degsym, file=None, fmt=fmt)
+        if route == "trprint2":
+            return b.trprint2(T2.copy(), unit=u, file=None, fmt=fmt)
+        return L.SE2(T2.copy()).printline(unit=u, file=None, fmt=fmt)
+    okd, sd = c.lib(route + "/deg", call, "deg")
+    okr, sr = c.lib(route + "/rad", call, "rad")
+    if not (okd and okr):
+        return c.out
+    if not c.true(route + "/text", isinstance(sd, str) and isinstance(sr, str), "printer returned %r / %r" % (sd, sr)):
+        return c.out
+    num = re.compile(r"[-+]?(?:\d+\.?\d*|\.\d+)(?:[eE][-+]?\d+)?")
+    tail = lambda t: t.split("=")[-1] if "2" not in route else t.split(";")[-1]     # noqa
+    nd, nr = [float(x) for x in num.findall(tail(sd))], [float(x) for x in num.findall(tail(sr))]
+    if not c.true(route + "/tokens", len(nd) == len(nr) and len(nd) >= 1, "deg text %r and rad text %r hold different numbers of values" % (sd, sr)):
+        return c.out
+    idx = [0] if orient == "angvec" else list(range(len(nd)))
+    for i in idx:
+        c.true(route + "/deg=rad*180/pi", abs(nd[i] - nr[i] * 180.0 / PI) <= 1e-8 * max(1.0, abs(nd[i])),
+               "printed with unit='deg': %r, with unit='rad': %r (value %d)" % (sd, sr, i))
+    return c.out
+
+
 def _badunit(case):
     c = Checker("badunit", name=case["name"], unit=repr(case["unit"]))
-    c.must_raise(case["name"] + "/unknown_unit", _unit_call, case["name"], [0.3, 0.2, 0.1], [0.0, 0.0, 1.0], "zyx", case["unit"])
+    c.must_raise(case["name"] + "/unknown_unit", _unit_call, case["name"], list(case.get("ang", [0.3, 0.2, 0.1])), [0.0, 0.0, 1.0], "zyx", case["unit"])
     return c.out
 
 
@@ -825,6 +884,7 @@ def subchecks(tier):
         Sub("wronglen", gen=gen_wronglen, shards=(8, 16)),
         Sub("theta_lengths", gen=gen_thetalen, shards=(1, 2)),
         Sub("options", gen=gen_options, shards=(2, 4)),
+        Sub("printed_units", gen=gen_printunit, shards=(1, 2)),
         Sub("form_values", strategy=s_form(), n=(800, 10000), shards=(8, 16)),
         Sub("unit", strategy=s_unit(), n=(800, 8000), shards=(8, 16)),
         Sub("scalartypes", gen=gen_scalartypes, shards=(2, 4)),
